@@ -47,6 +47,10 @@ CHECKS = [
         "Per-function bounded contract checks of reader functions for every byte content of their (capacity-reduced) buffers: the literal scanner on arbitrary short strings (no division by zero, no out-of-bounds read), the three error formatters for every formatted length (no write outside the 256-byte buffer, error reaches the collector), next_line progress (consumes a line or sets eof).",
         NOTE + "Not decided: whole-file behaviour, compressed streams, reader functions not listed in the evidence; buffer capacity ILL_namebufsize is reduced from 131072 to 512 in the scratch copy for these groups (one #define line, must-fire).",
         TECH, "DESIGN.md 4/C11"),
+    chk("C12", "other",
+        "Verdict/plumbing layer only. (i) the exact verdict loops ILLfct_check_dfeasible / ILLfct_check_pfeasible under contract with inductive loop invariants (dfcc): FEASIBLE is answered only if no position violates the sign / bound condition (stated at a ghost position; position map capped at 64 entries); (ii) bounded contract checks of ILLbasis_load (status codes -> internal vstat/baz/nbaz/vindex, one basic variable per row position) and of QSload_basis / QSload_basis_array (well-formed bases accepted and stored entry by entry).",
+        NOTE + "Not decided: that the exact basic solution of a basis (B^-1 b, computed by the LU code) is what the verdict functions evaluate -- simplex/LU are out of reach (see C13); the 'infeasible => some position violates' direction of the verdict loops (existential), QSexact_basis_* wrappers unless listed in the evidence.",
+        TECH, "DESIGN.md 4/C12"),
     chk("C14", "proof",
         "Frame half ('writing does not consume the basis'): QSwrite_basis under contract with an empty assigns/frees clause on everything reachable from the problem (dfcc), loops of the basis conversion closed by loop contracts, symbolic basis sizes up to 30000; the problem's basis, status and factorization flag are unchanged whatever the writer returns.",
         NOTE + "Not decided: the textual round trip (ILLlib_writebasis / ILLlib_readbasis: file text, name lookup), only listed where a group for it appears in the evidence.",
@@ -69,4 +73,4 @@ NOT_APPLICABLE = [
     {"property_id": "C09", "reason": "same as C08 for the MPS format"},
     {"property_id": "C15", "reason": "relation between two solves of different inputs (2-safety); not a single-call contract"},
 ] + [{"property_id": p, "reason": _NYB} for p in
-     ["C12", "C13", "C17", "C18", "C19"]]
+     ["C13", "C17", "C18", "C19"]]
